@@ -366,7 +366,14 @@ type c17Gen struct {
 
 func c17Generate(t *rapid.T) c17Gen {
 	g := c17Gen{classes: map[string]bool{}, excluded: map[string]bool{}}
-	topicPool := []string{"a", "b", "a.b", "T_2"}
+	// two name families: unrelated names, and legal names that are string prefixes of each
+	// other (a key-prefix delete or a HasPrefix scan on the shorter one must not touch the longer)
+	topicPool := rapid.SampledFrom([][]string{
+		{"t", "t-eu", "t.v2", "tt", "t_1"},
+		{"a", "b", "a.b", "T_2"},
+		{"orders", "orders-eu", "orders.v2", "order"},
+	}).Draw(t, "family")
+	offsetsOn := map[string]bool{} // topics with recorded partition offsets or a stored config
 	groupPool := []string{"g", "g1", "g.x", "grp-2"}
 	memberPool := []string{"m1", "m2", "g-123", "consumer-1-abc"}
 	topic := rapid.SampledFrom(topicPool)
@@ -402,13 +409,56 @@ func c17Generate(t *rapid.T) c17Gen {
 		return m
 	}
 	// rapid favours early elements: the operations the statement names come first
-	kinds := []string{"deleteTopic", "commit", "putGroup", "createTopic", "fetchOffset", "fetchGroup", "nextOffset", "updateOffsets",
+	kinds := []string{"deleteTopic", "commit", "putGroup", "createTopic", "prefixScenario", "fetchOffset", "fetchGroup", "nextOffset", "updateOffsets",
 		"createPartitions", "listOffsets", "listGroups", "deleteGroup", "metadata", "refresh", "createTopic", "deleteTopic", "commit",
 		"putGroup", "updateConfig", "fetchConfig"}
 	nops := rapid.IntRange(3, 28).Draw(t, "nops")
 	for i := 0; i < nops; i++ {
 		op := c17Op{Kind: rapid.SampledFrom(kinds).Draw(t, "kind")}
 		switch op.Kind {
+		case "prefixScenario":
+			// state on a longer name, then delete a topic whose name is a proper prefix of it
+			var pairs [][2]string
+			for _, short := range topicPool {
+				for _, longer := range topicPool {
+					if longer != short && strings.HasPrefix(longer, short) {
+						pairs = append(pairs, [2]string{short, longer})
+					}
+				}
+			}
+			pr := rapid.SampledFrom(pairs).Draw(t, "pair")
+			short, longer := pr[0], pr[1]
+			var macro []c17Op
+			for _, n := range []string{short, longer} {
+				if !exists[n] {
+					macro = append(macro, c17Op{Kind: "createTopic", Topic: n, N: int32(rapid.IntRange(1, 3).Draw(t, "n")), RF: 1})
+					exists[n] = true
+				}
+			}
+			statePart := int32(rapid.IntRange(0, 2).Draw(t, "part"))
+			macro = append(macro, c17Op{Kind: "updateOffsets", Topic: longer, Part: statePart, Off: rapid.Int64Range(0, 1000).Draw(t, "last")})
+			if rapid.Bool().Draw(t, "withconfig") {
+				macro = append(macro, c17Op{Kind: "updateConfig", Topic: longer, Off: rapid.Int64Range(1, 1000).Draw(t, "retention"), Meta: "v"})
+			}
+			if rapid.Bool().Draw(t, "withcommit") {
+				macro = append(macro, c17Op{Kind: "commit", Group: group.Draw(t, "group"), Topic: longer, Part: 0, Off: rapid.Int64Range(0, 1000).Draw(t, "off"), Meta: "m"})
+				committedOn[longer] = true
+			}
+			offsetsOn[longer] = true
+			if committedOn[short] && vfkit.Known(c17FindDelete) {
+				g.excluded[c17FindDelete] = true
+			} else {
+				macro = append(macro, c17Op{Kind: "deleteTopic", Topic: short})
+				delete(exists, short)
+				everDeleted[short] = true
+				g.classes["delete-of-a-name-prefix-of-a-topic-with-state"] = true
+			}
+			macro = append(macro, c17Op{Kind: "nextOffset", Topic: longer, Part: statePart})
+			for _, m := range macro[:len(macro)-1] {
+				g.script.Ops = append(g.script.Ops, m)
+				g.trace = append(g.trace, c17ShowOp(m))
+			}
+			op = macro[len(macro)-1]
 		case "createTopic":
 			op.Topic = pick("topic", deletedNow(), true)
 			op.N = int32(rapid.SampledFrom([]int{1, 2, 3, 4, 1, 2, 0, -1}).Draw(t, "n"))
@@ -420,7 +470,26 @@ func c17Generate(t *rapid.T) c17Gen {
 				}
 			}
 		case "deleteTopic":
-			op.Topic = pick("topic", exists, true)
+			shadowing := map[string]bool{} // existing names that are a proper prefix of an existing topic with state
+			for _, short := range topicPool {
+				for _, longer := range topicPool {
+					if exists[short] && exists[longer] && offsetsOn[longer] && longer != short && strings.HasPrefix(longer, short) {
+						shadowing[short] = true
+					}
+				}
+			}
+			if len(shadowing) > 0 {
+				op.Topic = pick("topic", shadowing, true)
+			} else {
+				op.Topic = pick("topic", exists, true)
+			}
+			if exists[op.Topic] {
+				for longer := range offsetsOn {
+					if longer != op.Topic && strings.HasPrefix(longer, op.Topic) && exists[longer] {
+						g.classes["delete-of-a-name-prefix-of-a-topic-with-state"] = true
+					}
+				}
+			}
 			if exists[op.Topic] && committedOn[op.Topic] && vfkit.Known(c17FindDelete) {
 				g.excluded[c17FindDelete] = true
 				op = c17Op{Kind: "listOffsets"}
@@ -434,7 +503,8 @@ func c17Generate(t *rapid.T) c17Gen {
 			op.Topic = topic.Draw(t, "topic")
 			op.N = int32(rapid.IntRange(1, 6).Draw(t, "count")) // the handler rejects count <= 0 itself
 		case "updateOffsets":
-			op.Topic = topic.Draw(t, "topic")
+			op.Topic = pick("topic", exists, true)
+			offsetsOn[op.Topic] = true
 			op.Part = int32(rapid.IntRange(0, 4).Draw(t, "part"))
 			op.Off = rapid.OneOf(rapid.Int64Range(-1, 5), rapid.Int64Range(0, 1<<40)).Draw(t, "last")
 		case "nextOffset":
@@ -512,12 +582,15 @@ func c17Generate(t *rapid.T) c17Gen {
 		case "metadata":
 			op.Topics = rapid.SliceOfN(topic, 0, 3).Draw(t, "subset")
 		case "updateConfig":
-			op.Topic = topic.Draw(t, "topic")
+			op.Topic = pick("topic", exists, true)
+			if exists[op.Topic] {
+				offsetsOn[op.Topic] = true
+			}
 			op.N = int32(rapid.IntRange(0, 3).Draw(t, "cfgparts"))
 			op.Off = rapid.Int64Range(-1, 1000).Draw(t, "retention")
 			op.Meta = "v"
 		case "fetchConfig":
-			op.Topic = topic.Draw(t, "topic")
+			op.Topic = pick("topic", exists, true)
 		}
 		g.script.Ops = append(g.script.Ops, op)
 		g.trace = append(g.trace, c17ShowOp(op))
